@@ -198,6 +198,9 @@ def build_params(req):
     fails[0] = False
   ntask = req["ntask"]
   tasks = numpy.sort(numpy.round(rng.random(ntask), 3) + numpy.arange(ntask) * 1e-3) if ntask else numpy.array([])
+  if ntask and len({float(t) for t in tasks}) < ntask:
+    # 0.648 and 0.647 + 0.001 collide: not a valid request (>= 2 DISTINCT task options; the task column [t, t] is refused by the domain) - skipped
+    raise RuntimeError("generated task options are not distinct")
   perm = rng.permutation(nm)
   oi = [int(x) for x in perm[:req["nopt"]]]
   ci = [int(x) for x in perm[req["nopt"]:]]
@@ -297,7 +300,8 @@ def run_endpoint(req):
     import traceback
     out = dict(error=type(e).__name__, message=str(e)[:300], where=traceback.format_exc()[-600:], task_options=tasks)
     if req["endpoint"] == "spe_search":
-      # the condition that identifies the registered finding: no observation violates any threshold, satisfiers > one-hot dim
+      # diagnostics for the report: how many observations violate a threshold (0 violators with satisfiers > one-hot dim was the defect
+      # repaired by 'fix: SPE search forces the threshold split only when some observation violates a threshold')
       try:
         from libsigopt.views.view import identify_scaled_values_exceeding_scaled_upper_thresholds as ident
         viol = ident(view.points_sampled_for_pf_values, view.constraint_thresholds)
